@@ -1,5 +1,6 @@
 """Engine A support: abstract SU_vector objects with symbolic components, hooks that model the few
 external calls that occur in the algebra kernels, and extraction of the basis tables."""
+import re
 from interp import (ArrayView, AssertionAbort, Interp, Hooks, Obj, Region, Ptr, Cell, Opaque, Unsupported, Thrown, NULL, UNDEF, ITE, Cond, OutOfBounds,
                     wrap_int)
 from poly import Poly, CPoly, mat_zero
@@ -298,6 +299,22 @@ class KernelHooks(Hooks):
             for k in range(nbytes // 8):
                 it.write(it.deref(it.ptr_add(dst, k), node), Poly.const(0), node)
             return dst
+        if base == 'std::inner_product' and len(args) == 4:
+            a, e, b, init = it.eval(args[0]), it.eval(args[1]), it.eval(args[2]), it.eval(args[3])
+            n = self._count(it, a, e, node)
+            acc = it.to_poly(init.value if isinstance(init, Cell) else init)
+            for k in range(n):
+                x = it.read(it.deref(it.ptr_add(a, k), node), node)
+                y = it.read(it.deref(it.ptr_add(b, k), node), node)
+                acc = acc + it.to_poly(x) * it.to_poly(y)
+            return acc
+        if base == 'std::accumulate' and len(args) == 3:
+            a, e, init = it.eval(args[0]), it.eval(args[1]), it.eval(args[2])
+            n = self._count(it, a, e, node)
+            acc = it.to_poly(init.value if isinstance(init, Cell) else init)
+            for k in range(n):
+                acc = acc + it.to_poly(it.read(it.deref(it.ptr_add(a, k), node), node))
+            return acc
         if base == 'std::fill_n':
             a, cnt, v = it.eval(args[0]), it.eval(args[1]), it.eval(args[2])
             if isinstance(v, Cell):
@@ -393,7 +410,7 @@ class KernelHooks(Hooks):
 
     def override_call(self, it, fdecl, node, args, this_cell):
         nm = fdecl['name']
-        if nm.endswith('Wrapper::operator+=') and this_cell is not None:
+        if is_wrapper_update(nm) and this_cell is not None:
             o = this_cell.value
             v = o.fields['v'].value
             kind = fdecl['record'].split('::')[-1]
@@ -421,9 +438,18 @@ class KernelHooks(Hooks):
             self.reads.append((cell.idx, fn, it.loc(node) if node else '?'))
 
 
+_WUPD = re.compile(r'Wrapper(<[^<>]*>)?::operator\+=$')
+
+
+def is_wrapper_update(name):
+    """the fused update of a target wrapper (AssignWrapper / IncrementWrapper / DecrementWrapper, or a template they are
+    aliases of): `component += value` meaning store, add or subtract"""
+    return bool(_WUPD.search(name or ''))
+
+
 def target_wrapper(it_unit, d, region, wrapper):
     """vector_wrapper<W>{dim, components} value as the proxy kernels receive it"""
-    o = Obj('squids::detail::vector_wrapper<squids::detail::%s>' % wrapper, None, 'target')
+    o = Obj('squids::detail::vector_wrapper<%s>' % (wrapper if '::' in wrapper else 'squids::detail::' + wrapper), None, 'target')
     dimcell = Cell(d, None, 0, 'target.dim')
     from interp import Ref
     o.field('dim').value = Ref(dimcell)
